@@ -100,7 +100,9 @@ deriving Repr, DecidableEq
 
 /-- **C13.** `victim`'s transport blocks at / fails its `at`-th write, or item `badIdx` (goroutine 0) cannot be encoded for it.
     Every other channel is complete; the victim is sound; a blocked victim carried exactly the writes before the
-    blocking one; a failed victim was either reported closed or kept delivering later writes. -/
+    blocking one; a victim whose write failed (or that was handed an unencodable item) was either reported closed or kept
+    delivering EVERY later write: it carried everything addressed to it except the one item whose write failed (the scenarios
+    stay below the queue bound, so nothing else may be missing). -/
 def stallLegal (p : Plan) (ownSys : Nat) (mode : StallMode) (victim atIdx failedItem : Nat)
     (obs : List (List (Option Obs))) (closeSeen : List Bool) : Bool :=
   (List.range obs.length).all (fun c =>
@@ -108,8 +110,9 @@ def stallLegal (p : Plan) (ownSys : Nat) (mode : StallMode) (victim atIdx failed
       channelSound p c (obs.getD c []) &&
       (match mode with
        | .block => (obs.getD c []).length == atIdx
-       | _ => closeSeen.getD c false ||
-              ((obs.getD c []).filterMap id).any (fun o => o.g == 0 && o.i > failedItem))
+       | .fail => closeSeen.getD c false ||
+           tags ((obs.getD c []).filterMap id) == (expected p c).filter (fun t => !(t.1 == 0 && t.2 == failedItem))
+       | .bad => closeSeen.getD c false || channelComplete p ownSys c (obs.getD c []))
     else channelComplete p ownSys c (obs.getD c [])) &&
   allPairs (obs.map (fun o => tags (o.filterMap id)))
 
